@@ -239,7 +239,7 @@ func (k Keeper) UpdateLPRewards(ctx sdk.Context) error {
 		if pool.EnableEdenRewards {
 			newEdenAllocatedForPool = poolShareEdenEnable.MulInt(lpsEdenAmount)
 			newEdenAllocatedForPool = math.LegacyMinDec(newEdenAllocatedForPool, poolMaxEdenAmount)
-			if newEdenAllocatedForPool.IsPositive() {
+			if newEdenAllocatedForPool.TruncateInt().IsPositive() {
 				err = k.commitmentKeeper.MintCoins(ctx, types.ModuleName, sdk.Coins{sdk.NewCoin(ptypes.Eden, newEdenAllocatedForPool.TruncateInt())})
 				if err != nil {
 					return err
